@@ -431,4 +431,36 @@ def install_structure(E):
         return out
     E.add(FnSpec(B + 'new', post=new_post, result=lambda I, args, loc: VOpaque(('newenv', loc))))
 
+def install_fp(E):
+    """C06(a): fp(a, t) returns the first element of a, t(a), t(t(a)), ... that t maps to itself (loop-shape rule, one symbolic iteration)"""
+    def fp_post(I, params, res):
+        out = []
+        a = params[1].term
+        inits = [ev for ev in I.events if ev[0] == 'loop_init']
+        ok = len(inits) == 1 and I.W.rep(inits[0][2]) == I.W.rep(a)
+        out.append(I.E.check_true(I, ok, 'FP: the iteration state starts as the argument a', {'loop-carried': [(i[1], show_key(i[2])) for i in inits]}))
+        if not ok: return out
+        sv = inits[0][1]
+        s = ('p', sv.split('#')[0] + '@iter')
+        ts = ('app', 'UFT', params[2].name, s)
+        key = ('beq',) + tuple(sorted((ts, s), key=repr))
+        dec = I.W.dec.get(key)
+        calls = [k for k in I.W.used if k[0] == 'beq']
+        if res == 'LOOP_CONTINUE':
+            nxt = [ev for ev in I.events if ev[0] == 'loop_continue'][0][1]
+            out.append(I.E.check_true(I, dec is False, 'FP: the loop continues only when t(s) differs from s', {'decision': dec, 'tests': [str(c) for c in calls]}))
+            out.append(I.E.check_true(I, nxt.get(sv) is not None and I.W.rep(nxt[sv]) == ts, 'FP: the next state is t(s)', {'next': show_key(nxt.get(sv)) if nxt.get(sv) else None}))
+        elif isinstance(res, Diverge):
+            out.append(I.E.check_true(I, False, 'FP: panic inside the iteration', loc=res.loc))
+        else:
+            out.append(I.E.check_true(I, dec is True, 'FP: the loop exits only when t(s) is structurally s', {'decision': dec}))
+            r = I.W.rep(res.term) if isinstance(res, VBdd) else None
+            out.append(I.E.check_true(I, r is not None and r in (I.W.rep(s), I.W.rep(ts)), 'FP: the value returned is the state that t maps to itself', {'got': show_key(r) if r else repr(res)}))
+        ncalls = len([ev for ev in I.events if ev[0] == 'fncall'])
+        return out
+    sp = FnSpec(B + 'fp', post=fp_post)
+    sp.loop_mode = True
+    sp.result = E.specs[B + 'fp'].result if (B + 'fp') in E.specs else None
+    E.specs[B + 'fp'] = sp
+
 STRUCT_FNS = ['simplify', 'mk_choice', 'mk_const', 'find', 'new', 'clean']
